@@ -164,77 +164,6 @@ func c17GenManifest(r *rng) *manifest.Manifest {
 	return m
 }
 
-// consensus message bodies (pkg/consensus keeps the types unexported: the bytes are laid out by hand, following
-// change_view.go / prepare_request.go / prepare_response.go / commit.go / recovery_request.go / recovery_message.go)
-func c17GenConsensus(r *rng) []byte {
-	w := io.NewBufBinWriter()
-	typ := pick(r, []byte{0x00, 0x20, 0x21, 0x30, 0x40, 0x41})
-	w.WriteB(typ)
-	w.WriteU32LE(uint32(r.intn(1000)))
-	w.WriteB(byte(r.intn(7)))
-	w.WriteB(byte(r.intn(3)))
-	switch typ {
-	case 0x00:
-		w.WriteU64LE(r.next())
-		reason := byte(r.intn(6))
-		w.WriteB(reason)
-		if reason == 3 || reason == 4 { // CVTxRejectedByPolicy, CVTxInvalid carry the rejected hashes
-			w.WriteArray(c17Hashes(r, r.intn(3)))
-		}
-	case 0x20:
-		w.WriteU32LE(0)
-		w.WriteBytes(r.bytes(32))
-		w.WriteU64LE(r.next())
-		w.WriteU64LE(r.next())
-		hs := c17Hashes(r, r.intn(4))
-		w.WriteArray(hs)
-	case 0x21:
-		w.WriteBytes(r.bytes(32))
-	case 0x30:
-		w.WriteBytes(r.bytes(64))
-	case 0x40:
-		w.WriteU64LE(r.next())
-	case 0x41:
-		w.WriteVarUint(1) // change views
-		w.WriteB(1)
-		w.WriteB(0)
-		w.WriteU64LE(r.next())
-		w.WriteVarBytes(r.bytes(66))
-		if r.bool() { // prepare request present: a complete message of type PrepareRequest
-			w.WriteB(1)
-			w.WriteB(0x20)
-			w.WriteU32LE(uint32(r.intn(1000)))
-			w.WriteB(byte(r.intn(7)))
-			w.WriteB(byte(r.intn(3)))
-			w.WriteU32LE(0)
-			w.WriteBytes(r.bytes(32))
-			w.WriteU64LE(r.next())
-			w.WriteU64LE(r.next())
-			w.WriteArray(c17Hashes(r, 1))
-		} else {
-			w.WriteB(0)
-			if r.bool() {
-				w.WriteVarUint(32)
-				w.WriteBytes(r.bytes(32))
-			} else {
-				w.WriteVarUint(0)
-			}
-		}
-		w.WriteVarUint(1) // preparations
-		w.WriteB(2)
-		w.WriteVarBytes(r.bytes(66))
-		w.WriteVarUint(1) // commits
-		w.WriteB(0)
-		w.WriteB(3)
-		w.WriteBytes(r.bytes(64))
-		w.WriteVarBytes(r.bytes(66))
-	}
-	e := &payload.Extensible{Category: "dBFT", ValidBlockStart: 0, ValidBlockEnd: uint32(r.intn(1000)), Data: w.Bytes(),
-		Witness: transaction.Witness{InvocationScript: r.bytes(66), VerificationScript: r.bytes(35)}}
-	copy(e.Sender[:], r.bytes(20))
-	return c17MustEnc(e)
-}
-
 func c17TxIdent(v io.Serializable) (string, int) {
 	t := v.(*transaction.Transaction)
 	return hx(t.Hash().BytesBE()), t.Size()
@@ -268,6 +197,19 @@ func c17Types() []c17Type {
 		}
 		return c
 	}
+	msgSR := func(r *rng) *network.Message { // what a StateRootInHeader network sends: blocks and headers with the root, consensus payloads
+		switch r.intn(4) {
+		case 0:
+			return network.NewMessage(network.CMDBlock, c17GenBlock(r, true))
+		case 1:
+			return network.NewMessage(network.CMDHeaders, &payload.Headers{Hdrs: []*block.Header{c17GenHeader(r, true), c17GenHeader(r, true)}, StateRootInHeader: true})
+		case 2:
+			cm := c17GenCons(r, true, r.intn(9), r.chance(20))
+			return network.NewMessage(network.CMDExtensible, cm.envelope(c17Keys()[cm.Validator].GetScriptHash(), r.bytes(66), r.bytes(35)))
+		default:
+			return network.NewMessage(network.CMDTX, c17TxFromDesc(r))
+		}
+	}
 	msg := func(r *rng) *network.Message {
 		switch r.intn(12) {
 		case 0:
@@ -298,6 +240,121 @@ func c17Types() []c17Type {
 		default:
 			return network.NewMessage(network.CMDGetBlocks, payload.NewGetBlocks(c17Hashes(r, 1)[0], int16(r.intn(500))))
 		}
+	}
+	trimmed := func(name string, sr bool) c17Type {
+		return c17Type{name: name, gen: func(r *rng) []byte {
+			w := io.NewBufBinWriter()
+			c17GenBlock(r, sr).EncodeTrimmed(w.BinWriter)
+			return w.Bytes()
+		}, dec: func(b []byte) c17Dec {
+			blk, err := block.NewTrimmedFromReader(sr, io.NewBinReaderFromBuf(b))
+			if err != nil {
+				return c17Dec{Err: err.Error(), Size: -1}
+			}
+			w := io.NewBufBinWriter()
+			blk.EncodeTrimmed(w.BinWriter)
+			re := w.Bytes()
+			out := c17Dec{OK: true, Hash: hx(blk.Hash().BytesBE()), Size: -1, Reenc: hx(re)}
+			blk2, err := block.NewTrimmedFromReader(sr, io.NewBinReaderFromBuf(re))
+			if err != nil {
+				out.Note = "re-encoding is rejected by the decoder: " + err.Error()
+			} else if blk2.Hash() != blk.Hash() {
+				out.Note = "identity depends on the encoding"
+			}
+			return out
+		}}
+	}
+	p2p := func(name string, sr bool, msg func(r *rng) *network.Message) c17Type {
+		return c17Type{name: name, gen: func(r *rng) []byte {
+			m := msg(r)
+			var b []byte
+			var err error
+			if r.bool() {
+				b, err = m.BytesCompressed(true)
+			} else {
+				b, err = m.Bytes()
+			}
+			if err != nil {
+				panic(err)
+			}
+			return b
+		}, dec: func(b []byte) c17Dec {
+			m := &network.Message{StateRootInHeader: sr}
+			if err := m.Decode(io.NewBinReaderFromBuf(b)); err != nil {
+				return c17Dec{Err: err.Error(), Size: -1}
+			}
+			out := c17Dec{OK: true, Size: -1}
+			// the frame is compared in its UNCOMPRESSED form: lz4 block compression is not canonical (the library
+			// reuses pooled hash tables, the same payload was seen to compress to 3914 and to 3915 bytes), and the
+			// compressed form is not part of any identity; the compressed re-encoding must still decode to the same frame
+			re, err := m.BytesCompressed(false)
+			if err != nil {
+				out.Note = "decoded message cannot be re-encoded: " + err.Error()
+				return out
+			}
+			re = bytes.Clone(re)
+			out.Reenc = hx(re)
+			m2 := &network.Message{StateRootInHeader: sr}
+			if err := m2.Decode(io.NewBinReaderFromBuf(re)); err != nil {
+				out.Note = "re-encoding is rejected by the decoder: " + err.Error()
+				return out
+			}
+			re2, err := m2.BytesCompressed(false)
+			if err != nil || !bytes.Equal(re, re2) {
+				out.Note = "re-encoding is not a fixpoint of decode;encode"
+			}
+			if rc, err := m.Bytes(); err != nil {
+				out.Note = "decoded message cannot be re-encoded with compression: " + err.Error()
+			} else {
+				m3 := &network.Message{StateRootInHeader: sr}
+				if err := m3.Decode(io.NewBinReaderFromBuf(rc)); err != nil {
+					out.Note = "re-encoding is rejected by the decoder: " + err.Error()
+				} else if re3, err := m3.BytesCompressed(false); err != nil || !bytes.Equal(re, re3) {
+					out.Note = "compressed re-encoding decodes to another frame"
+				}
+			}
+			if t1, ok := m.Payload.(*transaction.Transaction); ok {
+				if t2 := m2.Payload.(*transaction.Transaction); t1.Hash() != t2.Hash() || t1.Size() != t2.Size() {
+					out.Note = fmt.Sprintf("identity depends on the encoding: tx hash/size %s/%d from the received message, %s/%d from the re-encoding", hx(t1.Hash().BytesBE()), t1.Size(), hx(t2.Hash().BytesBE()), t2.Size())
+				}
+			}
+			return out
+		}}
+	}
+	// consensus payloads. Re-encoding writes the RECEIVED data back (Payload keeps it), so the generic laws see the envelope
+	// only; on top of them the message is re-encoded FROM ITS FIELDS and must be a fixpoint of decode;encode under the
+	// same configuration (for every accepted input; equality with the input holds for well-formed ones: kind cfgwire)
+	consType := func(name string, sr bool) c17Type {
+		fresh := func() io.Serializable { return consensus.NewPayload(c17Magic, sr) }
+		base := c17BinDec(fresh, func(v io.Serializable) (string, int) { return hx(v.(*consensus.Payload).Hash().BytesBE()), -1 })
+		return c17Type{name: name, gen: func(r *rng) []byte {
+			cm := c17GenCons(r, sr, r.intn(9), r.chance(20))
+			return c17MustEnc(cm.envelope(c17Keys()[cm.Validator].GetScriptHash(), r.bytes(66), r.bytes(35)))
+		}, dec: func(b []byte) c17Dec {
+			out := base(b)
+			if !out.OK || out.Note != "" {
+				return out
+			}
+			p, err := c17DecodeCons(b, sr)
+			if err != nil {
+				out.Note = "second decoding of the same bytes fails: " + err.Error()
+				return out
+			}
+			f1, err := c17ReencodeCons(p)
+			if err != nil {
+				out.Note = "decoded message cannot be re-encoded from its fields: " + err.Error()
+				return out
+			}
+			p2, err := c17DecodeCons(f1, sr)
+			if err != nil {
+				out.Note = "the message re-encoded from its fields is rejected by the decoder: " + err.Error()
+				return out
+			}
+			if f2, err := c17ReencodeCons(p2); err != nil || !bytes.Equal(f1, f2) {
+				out.Note = "re-encoding the message from its fields is not a fixpoint of decode;encode"
+			}
+			return out
+		}}
 	}
 	mptNode := func(r *rng) io.Serializable {
 		switch r.intn(4) {
@@ -398,27 +455,7 @@ func c17Types() []c17Type {
 				b := v.(*block.Block)
 				return hx(b.Hash().BytesBE()), b.GetExpectedBlockSize()
 			}),
-		{name: "block/trimmed", gen: func(r *rng) []byte {
-			w := io.NewBufBinWriter()
-			c17GenBlock(r, false).EncodeTrimmed(w.BinWriter)
-			return w.Bytes()
-		}, dec: func(b []byte) c17Dec {
-			blk, err := block.NewTrimmedFromReader(false, io.NewBinReaderFromBuf(b))
-			if err != nil {
-				return c17Dec{Err: err.Error(), Size: -1}
-			}
-			w := io.NewBufBinWriter()
-			blk.EncodeTrimmed(w.BinWriter)
-			re := w.Bytes()
-			out := c17Dec{OK: true, Hash: hx(blk.Hash().BytesBE()), Size: -1, Reenc: hx(re)}
-			blk2, err := block.NewTrimmedFromReader(false, io.NewBinReaderFromBuf(re))
-			if err != nil {
-				out.Note = "re-encoding is rejected by the decoder: " + err.Error()
-			} else if blk2.Hash() != blk.Hash() {
-				out.Note = "identity depends on the encoding"
-			}
-			return out
-		}},
+		trimmed("block/trimmed", false), trimmed("block/trimmed/sr", true),
 		bin("extensible", func(r *rng) io.Serializable {
 			e := &payload.Extensible{Category: pick(r, []string{"dBFT", "StateService", "", strings.Repeat("c", 32)}), ValidBlockStart: uint32(r.next()), ValidBlockEnd: uint32(r.next()),
 				Data: r.bytes(pick(r, []int{0, 1, 252, 253, 1000})), Witness: transaction.Witness{InvocationScript: r.bytes(66), VerificationScript: r.bytes(35)}}
@@ -426,8 +463,7 @@ func c17Types() []c17Type {
 			return e
 		}, func() io.Serializable { return payload.NewExtensible() },
 			func(v io.Serializable) (string, int) { return hx(v.(*payload.Extensible).Hash().BytesBE()), -1 }),
-		{name: "consensus", gen: c17GenConsensus, dec: c17BinDec(func() io.Serializable { return &consensus.Payload{} },
-			func(v io.Serializable) (string, int) { return hx(v.(*consensus.Payload).Hash().BytesBE()), -1 })},
+		consType("consensus", false), consType("consensus/sr", true),
 		bin("notaryrequest", func(r *rng) io.Serializable {
 			main := c17TxFromDesc(r)
 			if len(main.Signers) > 15 {
@@ -484,6 +520,17 @@ func c17Types() []c17Type {
 			n := r.intn(10)
 			return &payload.MerkleBlock{Header: c17GenHeader(r, false), TxCount: n, Hashes: c17Hashes(r, n), Flags: r.bytes((n + 7) / 8)}
 		}, func() io.Serializable { return &payload.MerkleBlock{} }, nil),
+		bin("headers/sr", func(r *rng) io.Serializable {
+			h := &payload.Headers{StateRootInHeader: true}
+			for i, n := 0, 1+r.intn(3); i < n; i++ {
+				h.Hdrs = append(h.Hdrs, c17GenHeader(r, true))
+			}
+			return h
+		}, func() io.Serializable { return &payload.Headers{StateRootInHeader: true} }, nil),
+		bin("merkleblock/sr", func(r *rng) io.Serializable {
+			n := r.intn(10)
+			return &payload.MerkleBlock{Header: c17GenHeader(r, true), TxCount: n, Hashes: c17Hashes(r, n), Flags: r.bytes((n + 7) / 8)}
+		}, func() io.Serializable { return &payload.MerkleBlock{Header: &block.Header{StateRootEnabled: true}} }, nil),
 		bin("mptdata", func(r *rng) io.Serializable {
 			return &payload.MPTData{Nodes: [][]byte{r.bytes(1 + r.intn(50)), r.bytes(1)}}
 		},
@@ -491,61 +538,7 @@ func c17Types() []c17Type {
 		bin("mptinventory", func(r *rng) io.Serializable { return payload.NewMPTInventory(c17Hashes(r, 1+r.intn(32))) },
 			func() io.Serializable { return &payload.MPTInventory{} }, nil),
 		bin("ping", func(r *rng) io.Serializable { return payload.NewPing(uint32(r.next()), uint32(r.next())) }, func() io.Serializable { return &payload.Ping{} }, nil),
-		{name: "p2pmessage", gen: func(r *rng) []byte {
-			m := msg(r)
-			var b []byte
-			var err error
-			if r.bool() {
-				b, err = m.BytesCompressed(true)
-			} else {
-				b, err = m.Bytes()
-			}
-			if err != nil {
-				panic(err)
-			}
-			return b
-		}, dec: func(b []byte) c17Dec {
-			m := &network.Message{}
-			if err := m.Decode(io.NewBinReaderFromBuf(b)); err != nil {
-				return c17Dec{Err: err.Error(), Size: -1}
-			}
-			out := c17Dec{OK: true, Size: -1}
-			// the frame is compared in its UNCOMPRESSED form: lz4 block compression is not canonical (the library
-			// reuses pooled hash tables, the same payload was seen to compress to 3914 and to 3915 bytes), and the
-			// compressed form is not part of any identity; the compressed re-encoding must still decode to the same frame
-			re, err := m.BytesCompressed(false)
-			if err != nil {
-				out.Note = "decoded message cannot be re-encoded: " + err.Error()
-				return out
-			}
-			re = bytes.Clone(re)
-			out.Reenc = hx(re)
-			m2 := &network.Message{}
-			if err := m2.Decode(io.NewBinReaderFromBuf(re)); err != nil {
-				out.Note = "re-encoding is rejected by the decoder: " + err.Error()
-				return out
-			}
-			re2, err := m2.BytesCompressed(false)
-			if err != nil || !bytes.Equal(re, re2) {
-				out.Note = "re-encoding is not a fixpoint of decode;encode"
-			}
-			if rc, err := m.Bytes(); err != nil {
-				out.Note = "decoded message cannot be re-encoded with compression: " + err.Error()
-			} else {
-				m3 := &network.Message{}
-				if err := m3.Decode(io.NewBinReaderFromBuf(rc)); err != nil {
-					out.Note = "re-encoding is rejected by the decoder: " + err.Error()
-				} else if re3, err := m3.BytesCompressed(false); err != nil || !bytes.Equal(re, re3) {
-					out.Note = "compressed re-encoding decodes to another frame"
-				}
-			}
-			if t1, ok := m.Payload.(*transaction.Transaction); ok {
-				if t2 := m2.Payload.(*transaction.Transaction); t1.Hash() != t2.Hash() || t1.Size() != t2.Size() {
-					out.Note = fmt.Sprintf("identity depends on the encoding: tx hash/size %s/%d from the received message, %s/%d from the re-encoding", hx(t1.Hash().BytesBE()), t1.Size(), hx(t2.Hash().BytesBE()), t2.Size())
-				}
-			}
-			return out
-		}},
+		p2p("p2pmessage", false, msg), p2p("p2pmessage/sr", true, msgSR),
 		bin("mptroot", func(r *rng) io.Serializable {
 			s := &state.MPTRoot{Version: byte(r.intn(2)), Index: uint32(r.next()), Root: c17Hashes(r, 1)[0]}
 			if r.bool() {
